@@ -280,7 +280,14 @@ def c17(ctx: Ctx) -> None:
                         we = next((x for x in gc.nodes if x.kind == 'with_enter' and x.meta.get('item') is i), None)
                         ctxs.append(resolve(gc, we, i.context_expr) if we is not None else i.context_expr)
                     okl = any(isinstance(c_, ast.Call) and norm(c_.func) == '_get_loop_lock'
-                              and [norm(a_) for a_ in c_.args] == [recv] for c_ in ctxs)
+                              and [norm(resolve(gc, n, a_)) for a_ in c_.args] == [recv] for c_ in ctxs)
+                    if not okl:
+                        # lock object in a local: `lock = _get_loop_lock(loop); lock.acquire(); try: ... finally: lock.release()`
+                        lock_locals = {x.meta['name']: x.meta['value'] for x in gc.nodes if x.kind == 'store_name'
+                                       and isinstance(x.meta.get('value'), ast.Call) and norm(x.meta['value'].func) == '_get_loop_lock'}
+                        if lock_locals:
+                            held = held_locks(gc, list(lock_locals))
+                            okl = any(nm in held[n.id] and [norm(a_) for a_ in lock_locals[nm].args] == [recv] for nm in lock_locals)
                     ctx.check('C17-R2', f'{c.qualname}: {norm(n.ast)}', gc.loc(n), okl,
                               f'inside `with _get_loop_lock({recv})`', 'a loop can be run by two threads at once (no per-loop lock around running it)',
                               construct=construct_key(c.qualname, 'run without lock', n.ast.func.attr))
@@ -322,8 +329,13 @@ def c17(ctx: Ctx) -> None:
     if runner is not None:
         gr = build(runner, p)
         calls = [n for n in gr.nodes if n.kind == 'call' and isinstance(n.ast.func, ast.Attribute) and n.ast.func.attr == 'run_until_complete']
-        ok = len(calls) == 1 and norm(calls[0].ast.func.value) == loopp and [norm(a_) for a_ in calls[0].ast.args] == [awp] \
-            and isinstance(parent(calls[0].ast), ast.Return) and runner.binding_scope(loopp) is ea and runner.binding_scope(awp) is ea
+        rets_r = [n for n in gr.nodes if n.kind == 'return']
+        ret_ok = bool(rets_r) and all(
+            isinstance(resolve(gr, n, n.ast.value), ast.Call) and isinstance(resolve(gr, n, n.ast.value).func, ast.Attribute)
+            and resolve(gr, n, n.ast.value).func.attr == 'run_until_complete' for n in rets_r)
+        ok = len(calls) == 1 and norm(resolve(gr, calls[0], calls[0].ast.func.value)) == loopp \
+            and [norm(resolve(gr, calls[0], a_)) for a_ in calls[0].ast.args] == [awp] \
+            and ret_ok and runner.binding_scope(loopp) is ea and runner.binding_scope(awp) is ea
         ctx.check('C17-R4', f'{runner.qualname}: return {norm(calls[0].ast) if calls else None}', f'{A}:{runner.lineno}', ok,
                   'the awaitable is run by the target loop, its outcome returned', 'the awaitable is not evaluated by the target loop',
                   construct=construct_key(runner.qualname, 'target loop'))
@@ -803,51 +815,107 @@ def c19(ctx: Ctx) -> None:
                       'the guarded parser returns something other than parse(x) or x', construct=construct_key(tryp.qualname, 'returns'))
     # R5: the two variants of the tuple parser under `if parse_keys`
     pt = [c for c in f.children if c.kind == 'function' and c is not pair and c is not tryp]
-    ifs = [n for n in own_nodes(f.node) if isinstance(n, ast.If) and norm(n.test) in (pk_p, f'not {pk_p}')]
-    if not ifs or len(pt) < 2:
-        ctx.undecided('C19-R5', 'parse_keys switch', where, f'{len(ifs)} if-statements on parse_keys, {len(pt)} tuple parsers')
-    else:
-        i0 = ifs[0]
-        neg = norm(i0.test).startswith('not ')
-        def variant_in(stmts):
-            for s in stmts:
-                if isinstance(s, (ast.FunctionDef,)):
-                    return s
-            return None
-        vt, vf = variant_in(i0.body), variant_in(i0.orelse)
-        if neg:
-            vt, vf = vf, vt
-        def shape(fn):
-            sc_ = next((c for c in f.children if c.node is fn), None)
-            if sc_ is None:
-                return None
-            gv = build(sc_, p, inline_nested=False)
-            r_ = [n for n in gv.nodes if n.kind == 'return']
-            if len(r_) != 1:
-                return None
+    from ..match import closure_value
+
+    def is_identity(name: str) -> bool:
+        sc_ = next((c for c in f.children if c.kind == 'function' and c.name == name), None)
+        if sc_ is None or len(sc_.params) != 1:
+            return False
+        rs = [x for x in own_nodes(sc_.node) if isinstance(x, ast.Return)]
+        body = [x for x in sc_.node.body if not (isinstance(x, ast.Expr) and isinstance(x.value, ast.Constant))]
+        return len(body) == 1 and len(rs) == 1 and isinstance(rs[0].value, ast.Name) and rs[0].value.id == sc_.params[0]
+
+    def pk_value(test: ast.AST, b: bool) -> Optional[bool]:
+        if isinstance(test, ast.Name) and test.id == pk_p:
+            return b
+        if isinstance(test, ast.UnaryOp) and isinstance(test.op, ast.Not):
+            v = pk_value(test.operand, b)
+            return None if v is None else not v
+        return None
+
+    def classify_fn(fe: ast.AST, b: bool) -> str:
+        """'parse' / 'identity' / '?' for a function-valued expression under parse_keys = b"""
+        if isinstance(fe, ast.Name):
+            if fe.id == tryp.name:
+                return 'parse'
+            if is_identity(fe.id):
+                return 'identity'
+            cv = closure_value(f, fe.id) if fe.id in f.locals else None
+            if cv is None:
+                for n in own_nodes(f.node):
+                    if isinstance(n, (ast.Assign, ast.AnnAssign)):
+                        tg = n.targets[0] if isinstance(n, ast.Assign) else n.target
+                        if isinstance(tg, ast.Name) and tg.id == fe.id and n.value is not None:
+                            cv = n.value
+            return classify_fn(cv, b) if cv is not None else '?'
+        if isinstance(fe, ast.IfExp):
+            v = pk_value(fe.test, b)
+            return classify_fn(fe.body if v else fe.orelse, b) if v is not None else '?'
+        if isinstance(fe, ast.Lambda) and len(fe.args.args) == 1 and isinstance(fe.body, ast.Name) and fe.body.id == fe.args.args[0].arg:
+            return 'identity'
+        return '?'
+
+    def classify_elem(e: ast.AST, a: str, b: bool) -> str:
+        if isinstance(e, ast.Name) and e.id == a:
+            return 'raw'
+        if isinstance(e, ast.Call) and len(e.args) == 1 and not e.keywords and norm(e.args[0]) == a:
+            k = classify_fn(e.func, b)
+            return {'parse': 'parsed', 'identity': 'raw'}.get(k, '?')
+        return '?'
+
+    def active_variants(b: bool) -> List[Scope]:
+        """tuple-parser definitions in effect under parse_keys = b (the last one defined wins)"""
+        out_: List[Scope] = []
+
+        def walk(stmts):
+            for st in stmts:
+                if isinstance(st, ast.If):
+                    v = pk_value(st.test, b)
+                    if v is None:
+                        walk(st.body)
+                        walk(st.orelse)
+                    else:
+                        walk(st.body if v else st.orelse)
+                elif isinstance(st, ast.FunctionDef):
+                    sc_ = next((c for c in pt if c.node is st), None)
+                    if sc_ is not None:
+                        out_.append(sc_)
+        walk(f.node.body)
+        return out_
+    calls_in_pair = {x.func.id for x in own_nodes(pair.node) if isinstance(x, ast.Call) and isinstance(x.func, ast.Name)}
+    shapes = {}
+    for b in (True, False):
+        vs = [v for v in active_variants(b) if v.name in calls_in_pair]
+        if not vs:
+            shapes[b] = None
+            continue
+        sc_ = vs[-1]
+        gv = build(sc_, p, inline_nested=False)
+        r_ = [n for n in gv.nodes if n.kind == 'return']
+        shp = None
+        if len(r_) == 1:
             rv = resolve(gv, r_[0], r_[0].ast.value)
-            if not isinstance(rv, ast.Tuple) or len(rv.elts) != 2:
-                return None
-            k, v = rv.elts
-            a0, a1 = fn.args.args[0].arg, fn.args.args[1].arg
-            def cls(e, a):
-                if isinstance(e, ast.Name) and e.id == a:
-                    return 'raw'
-                if isinstance(e, ast.Call) and isinstance(e.func, ast.Name) and e.func.id == tryp.name and [norm(z) for z in e.args] == [a]:
-                    return 'parsed'
-                return '?'
-            return cls(k, a0), cls(v, a1)
-        st, sf = (shape(vt) if vt else None), (shape(vf) if vf else None)
-        ctx.check('C19-R5', f'parse_keys=True -> {st}', f'{PA}:{i0.lineno}', st == ('parsed', 'parsed'), 'key and value parsed',
+            if isinstance(rv, ast.Tuple) and len(rv.elts) == 2 and len(sc_.params) == 2:
+                shp = (classify_elem(rv.elts[0], sc_.params[0], b), classify_elem(rv.elts[1], sc_.params[1], b))
+        shapes[b] = (shp, sc_)
+    st = shapes[True][0] if shapes[True] else None
+    sf = shapes[False][0] if shapes[False] else None
+    where5 = f'{PA}:{(shapes[True][1] if shapes[True] else f).lineno}'
+    if shapes[True] is None or shapes[False] is None:
+        ctx.undecided('C19-R5', 'parse_keys switch', where, 'no tuple parser called by the pair parser')
+    else:
+        ctx.check('C19-R5', f'parse_keys=True -> {st}', where5, st == ('parsed', 'parsed'), 'key and value parsed',
                   'with parse_keys the key or value is not parsed (or swapped)', construct=construct_key('parse_to_dict', 'parse_keys true', st))
-        ctx.check('C19-R5', f'parse_keys=False -> {sf}', f'{PA}:{i0.lineno}', sf == ('raw', 'parsed'), 'key untouched, value parsed',
+        ctx.check('C19-R5', f'parse_keys=False -> {sf}', where5, sf == ('raw', 'parsed'), 'key untouched, value parsed',
                   'without parse_keys the key is altered or the value left unparsed', construct=construct_key('parse_to_dict', 'parse_keys false', sf))
-        same_name = vt is not None and vf is not None and vt.name == vf.name
-        calls_pt = [n for n in gp.nodes if n.kind == 'call' and isinstance(n.ast.func, ast.Name) and vt is not None and n.ast.func.id == vt.name]
+        vt = shapes[True][1]
+        vf = shapes[False][1]
+        same_name = vt.name == vf.name
+        calls_pt = [n for n in gp.nodes if n.kind == 'call' and isinstance(n.ast.func, ast.Name) and n.ast.func.id == vt.name]
         rets_p = [n for n in gp.nodes if n.kind == 'return']
         okp = same_name and len(calls_pt) == len(rets_p) >= 1 and all(
             isinstance(resolve(gp, r_, r_.ast.value), ast.Call) and norm(resolve(gp, r_, r_.ast.value).func) == vt.name for r_ in rets_p)
-        ctx.check('C19-R6', f'{pair.name} returns {vt.name if vt else None}(...) on every path', f'{PA}:{pair.lineno}', okp,
+        ctx.check('C19-R6', f'{pair.name} returns {vt.name}(...) on every path', f'{PA}:{pair.lineno}', okp,
                   'string and tuple items go through the same tuple parser', 'an input shape bypasses the parser',
                   construct=construct_key(pair.qualname, 'pipeline'))
     # R6
